@@ -465,6 +465,50 @@ def epoll_masks(rep, u, vals):
     (rep.proved if ok else rep.violated)("R-TBL", fn, "epoll-interest", desc, "EOF test 0x%x, read 0x%x, write 0x%x" % (eof, rd, wr))
 
 
+def add_or_modify(rep, u):
+    """epoll_ctl_ex makes an "add or modify" guess recover: ADD that fails with EEXIST is retried as MOD, MOD that fails with
+    ENOENT is retried as ADD.  Evaluated over operation x first result x second result: the function returns 0 exactly when the
+    descriptor ended up registered (first call succeeded, or the recoverable error occurred and the retry succeeded); a stale
+    error after a successful retry makes the caller forget an event that is armed."""
+    from rules import r_stride
+    fn = u.fn("epoll_ctl_ex")
+    if fn is None or not fn.has_cfg:
+        raise driver.AnalysisBroken("anchor epoll_ctl_ex vanished")
+    rep.functions.add(fn.name)
+    ADD, DEL, MOD = 1, 2, 3
+    EEXIST, ENOENT, EBADF = 17, 2, 9
+    pn = [p["n"] for p in fn.params]
+    calls = {}
+    for pos, root, c, ps in fn.calls({"epoll_ctl"}):
+        calls.setdefault(const_val(c["args"][1]), []).append(key(c))
+    n = 0
+    bad = undec = None
+    for op, err1, ok2 in [(o, e, k) for o in (ADD, MOD, DEL) for e in (0, EEXIST, ENOENT, EBADF) for k in (True, False)]:
+        other = {ADD: MOD, MOD: ADD}.get(op)
+        pe = r_stride.PE(u)
+        bind = {pn[0]: 5, pn[1]: op, pn[2]: 7, pn[3]: 0x1000, "*(__errno_location())": err1 if err1 else 0}
+        for k_ in calls.get(op, []):
+            bind[k_] = 0 if err1 == 0 else -1
+        # the retry uses the other operation; its errno (when it fails) is EBADF
+        for k_ in calls.get(other, []):
+            bind[k_] = 0 if ok2 else -1
+        outs = {v for v, s_ in pe.outcomes(fn, bind, 0)}
+        n += 1
+        recover = {ADD: EEXIST, MOD: ENOENT}.get(op)
+        registered = err1 == 0 or (recover is not None and err1 == recover and ok2)
+        what = "%s: first call %s, retry %s" % ({ADD: "ADD", MOD: "MOD", DEL: "DEL"}[op], "succeeds" if err1 == 0 else "fails with errno %d" % err1,
+                                               "succeeds" if ok2 else "fails")
+        if None in outs:
+            undec = undec or "%s: result not computable" % what
+        elif registered and outs != {0}:
+            bad = bad or "%s: the descriptor is registered but %s is returned" % (what, sorted(outs))
+        elif not registered and 0 in outs:
+            bad = bad or "%s: 0 is returned although nothing was registered" % what
+    desc = "epoll_ctl_ex returns 0 exactly when the descriptor ended up registered (operation x first result x retry result)"
+    (rep.violated if bad else rep.undecided if undec else rep.proved)("R-PATH", fn, "add-or-modify", desc, bad or undec or "%d combinations" % n)
+    return n
+
+
 def record_widths(rep, u):
     """the fields of the event record travel through helper parameters of the same width: a parameter named after a
     tp_event_t field has that field's integer type width, and no call narrows such a value implicitly"""
@@ -531,6 +575,7 @@ def run(rep, tier):
     rep.floor("descriptor creation sites", nf, 2)
     bitfields(rep, fp)
     epoll_masks(rep, u, vals)
+    rep.floor("add-or-modify combinations", add_or_modify(rep, u), 20)
     rep.floor("event-record parameters", record_widths(rep, u), 8)
     return driver.finish(
         rep, "other",
